@@ -90,12 +90,16 @@ fn inc(x: u64) -> u64 { x.wrapping_add(1) }
 
 #[inline(never)] pub fn t55(a: u64, b: u64) -> u64 { let s = small(a); let r: Result<u64, u8> = s.iter().try_fold(b % 5, |acc, &x| if x == 7 { Err(x) } else { Ok(acc * 3 + u64::from(x)) }); let o: Option<u64> = Some(small(b).to_vec()).iter().flatten().try_fold(1u64, |acc, &x| if x == 0 { None } else { Some(acc * u64::from(x) % 1009) }); (match r { Ok(v) => v % 100_000, Err(e) => 900_000 + u64::from(e) }) + 1_000_000 * o.unwrap_or(777) }
 
+#[inline(never)] pub fn t56(a: u64, b: u64) -> u64 { let s = small(a); let k = (b % 3) as u8 + 1; let dense: u64 = s.chunk_by(|x, y| x / k == y / k).map(|c| c.len() as u64 * 10 + u64::from(c[0])).fold(0u64, |acc, x| (acc * 131 + x) % 1_000_003); let v: Vec<u8> = s.iter().copied().filter(|x| x % 2 == (b % 2) as u8).collect(); let sparse: u64 = v.chunk_by(|x, y| x == y).filter(|c| c[0] != 3).flatten().copied().fold(7u64, |acc, x| (acc * 17 + u64::from(x)) % 1_000_003); dense + 1_000_003 * sparse }
+
+#[inline(never)] pub fn t57(a: u64, b: u64) -> u64 { let s = small(a); let mut x: u64 = b; let mut y: u8 = 0; for (i, e) in s.iter().enumerate() { if i % 2 == 0 { y ^= e; } else { y |= e; } let w = u64::from(*e) << (8 * i); x ^= &w; x &= &!(1u64 << 63); } x.wrapping_add(u64::from(y)) }
+
 fn main() {
     let args: Vec<String> = std::env::args().collect();
     let id: usize = args[1].parse().unwrap();
     let a: u64 = args[2].parse().unwrap();
     let b: u64 = args[3].parse().unwrap();
-    let fs: [fn(u64, u64) -> u64; 56] = [t00, t01, t02, t03, t04, t05, t06, t07, t08, t09, t10, t11, t12, t13, t14, t15, t16, t17, t18, t19, t20, t21, t22, t23, t24, t25, t26, t27, t28, t29, t30, t31, t32, t33, t34, t35, t36, t37, t38, t39, t40, t41, t42, t43, t44, t45, t46, t47, t48, t49, t50, t51, t52, t53, t54, t55];
+    let fs: [fn(u64, u64) -> u64; 58] = [t00, t01, t02, t03, t04, t05, t06, t07, t08, t09, t10, t11, t12, t13, t14, t15, t16, t17, t18, t19, t20, t21, t22, t23, t24, t25, t26, t27, t28, t29, t30, t31, t32, t33, t34, t35, t36, t37, t38, t39, t40, t41, t42, t43, t44, t45, t46, t47, t48, t49, t50, t51, t52, t53, t54, t55, t56, t57];
     let r = std::panic::catch_unwind(|| fs[id](a, b));
     match r { Ok(v) => println!("OK {v}"), Err(_) => println!("PANIC") }
 }
